@@ -220,6 +220,13 @@ func (fx *FX) contractNames(c *Contract, callee *ssa.Function, sig *types.Signat
 				names[p.Name()] = args[i]
 			}
 		}
+		if rec := fx.e.Recorded[fx.e.fnName(callee)]; rec != nil && len(rec.Params) == len(callee.Params) {
+			for i, n := range rec.Params {
+				if _, taken := names[n]; !taken && i < len(args) {
+					names[n] = args[i]
+				}
+			}
+		}
 	}
 	if c != nil {
 		if ps, ok := c.Opts["params"]; ok {
